@@ -283,5 +283,26 @@ class Client(pipeline.Stream):
         return ser.from_json(j)
 
 
+def _rekey(prefix, fn):
+    def oracle(case, o):
+        bad = fn(case, o)
+        return None if bad is None else (prefix + bad[0], bad[1])
+    return staticmethod(oracle)
+
+
+from harness.pool_support import common as PC     # noqa: E402
+
+
+class PoolDependency(PC.PoolStream):
+    """the pooled half of the property is a composition: C04's theorems give "one enqueue per notification,
+    no reply", Props/C09.v gives "every accepted task runs exactly once".  The pool model those theorems are
+    about is therefore re-validated here as well: the real ThreadPool in lock-step with Model/Pool.v under the
+    controlled scheduler, judged by the exactly-once oracle."""
+    name = "pool"
+    n_quick = 120
+    n_thorough = 1500
+    oracle_fn = _rekey("C04:pooled-notification:", PC.oracle_c09)
+
+
 def streams():
-    return [Main(), Client()]
+    return [Main(), Client(), PoolDependency()]
